@@ -235,6 +235,33 @@ func initArrayList() {
 
 	Def(
 		c,
+		"pop",
+		func(vm *Thread, args []value.Value) (value.Value, value.Value) {
+			self := args[0].AsReference().(value.ArrayList)
+			length := self.Length()
+			if length == 0 {
+				return value.Undefined, value.Ref(value.NewIndexOutOfRangeError("-1", 0))
+			}
+			last := self.AtVal(length - 1)
+			self.RemoveAt(length - 1)
+			return last, value.Undefined
+		},
+	)
+	Alias(c, "<<@", "pop")
+	Def(
+		c,
+		"clear",
+		func(vm *Thread, args []value.Value) (value.Value, value.Value) {
+			self := args[0].AsReference().(value.ArrayList)
+			for self.Length() > 0 {
+				self.RemoveAt(self.Length() - 1)
+			}
+			return value.Nil, value.Undefined
+		},
+	)
+
+	Def(
+		c,
 		"map_mut",
 		func(vm *Thread, args []value.Value) (value.Value, value.Value) {
 			self := args[0].AsReference().(value.ArrayList)
